@@ -178,7 +178,7 @@ func (v *Verifier) evalCall(fr *Frame, st *State, x *ast.CallExpr) Val {
 			a := v.evalSpec(fr, st, x.Args[0]).(SliceVal)
 			b := v.evalSpec(fr, st, x.Args[1]).(SliceVal)
 			return Scalar{c.Not(c.Eq(a.Ref, b.Ref)), types.Typ[types.Bool]}
-		case "sent", "sentMsgs", "sentByte", "rpos", "inByte", "atomic":
+		case "sent", "sentMsgs", "sentByte", "rpos", "rlen", "inByte", "atomic":
 			if r, ok := v.ghostBuiltin(fr, st, id.Name, x); ok {
 				return r
 			}
